@@ -323,7 +323,7 @@ class Parser(IdlVisitor):
             targets=targets,
             namespace=self.current_namespace,
             return_type_ref=return_type_ref,
-            dependencies=dependencies,
+            dependencies=self._dependencies(dependencies),
             throwing=throwing,
         )
 
@@ -353,7 +353,7 @@ class Parser(IdlVisitor):
             comment=self.visit(ctx.comment()) if ctx.comment() else None,
             error_codes=error_codes,
             namespace=self.current_namespace,
-            dependencies=dependencies,
+            dependencies=self._dependencies(dependencies),
         )
 
     def visitErrorCode(self, ctx: IdlParser.ErrorCodeContext) -> ErrorDomain.ErrorCode:
